@@ -132,9 +132,12 @@ func bodyAllowedForStatus(code int) bool {
 }
 
 func isCompressable(header http.Header, contentTypes *regexp.Regexp) bool {
-	// don't compress if it is already encoded
-	if header.Get(headerContentEncoding) != "" {
-		return false
+	// don't compress if it is already encoded. The coding may be named on
+	// any of several header lines, not only on the first one.
+	for _, v := range header.Values(headerContentEncoding) {
+		if strings.TrimSpace(v) != "" {
+			return false
+		}
 	}
 	return contentTypes.MatchString(header.Get(headerContentType))
 }
